@@ -180,6 +180,8 @@ class Parser:
                         break
         else:
             self.path_segments()
+            if self.at_op("<"):      # generic arguments of a type: `String<N>`, `Vec<u8, 3>`
+                self.skip_angle()
         return " ".join(str(t[1]) for t in self.toks[start:self.i])
 
     def path_segments(self):
